@@ -39,6 +39,15 @@ type Case struct {
 type MidProbe struct {
 	At   int `json:"at"`
 	Back int `json:"back"`
+	// Disc: At counts disconnected events instead of connected ones: the
+	// new subscriber arrives in the middle of a rollback and asks for the
+	// backlog above (the removed block's height - 1 - Back).
+	Disc bool `json:"disc,omitempty"`
+	// Sched: At counts the times the block handler reaches the named point
+	// between removing a block from the stores and announcing it; the new
+	// subscriber is started from there (without holding the rollback up)
+	// and asks for the backlog above (filter tip at that moment - 1 - Back).
+	Sched bool `json:"sched,omitempty"`
 }
 
 type midRun struct {
@@ -85,6 +94,8 @@ type oracle struct {
 	sub     *blockntfns.Subscription
 
 	mids      map[int][]int // connected-event ordinal -> backs
+	midsDisc  map[int][]int // disconnected-event ordinal -> backs
+	ndisc     int
 	midRuns   []*midRun
 	nconn     int
 	midNT     bool
@@ -163,15 +174,20 @@ func (o *oracle) subscribe(s *netsim.Sim) {
 			o.mu.Lock()
 			o.events = append(o.events, e)
 			var backs []int
+			base := int(e.height)
 			if e.conn {
 				o.nconn++
 				backs = o.mids[o.nconn]
+			} else {
+				o.ndisc++
+				backs = o.midsDisc[o.ndisc]
+				base = int(e.height) - 1
 			}
 			seen := len(o.events)
 			o.mu.Unlock()
 			for _, b := range backs {
-				if int(e.height)-b >= 1 {
-					o.startMid(uint32(int(e.height)-b), seen)
+				if base-b >= 1 {
+					o.startMid(uint32(base-b), seen)
 				}
 			}
 		}
@@ -233,7 +249,63 @@ func (o *oracle) checkMids(when string, events []ev, bsn *netsim.ChainSnap, fsn 
 			}
 		}
 		if reorg {
-			o.v.Class("mid-flight-probe-skipped(reorg)")
+			// With a rollback in flight the probe still has a definite
+			// starting point if it asked for the backlog above a height
+			// below every block removed since: the committed chain up to
+			// that height was the same throughout. Backlog and later
+			// events, replayed on top of it, must then give the
+			// committed chain.
+			minDisc := uint32(1 << 31)
+			for _, e := range events[m.atSeen-1:] {
+				if !e.conn && e.height < minDisc {
+					minDisc = e.height
+				}
+			}
+			for _, n := range m.got {
+				if _, ok := n.(*blockntfns.Connected); !ok && n.Height() < minDisc {
+					minDisc = n.Height()
+				}
+			}
+			if m.h >= minDisc || m.err != nil || int(m.h) > int(fsn.Tip) {
+				o.v.Class("mid-flight-probe-skipped(reorg)")
+				continue
+			}
+			o.v.Class("mid-flight-probe-during-rollback-evaluated")
+			o.midNT = true
+			replay := append([]chainhash.Hash{}, bsn.Hashes[:m.h+1]...)
+			for i, n := range m.got {
+				hd := n.Header()
+				hh := hd.BlockHash()
+				if _, ok := n.(*blockntfns.Connected); ok {
+					switch {
+					case int(n.Height()) == len(replay) && hd.PrevBlock == replay[len(replay)-1]:
+						replay = append(replay, hh)
+					case int(n.Height()) < len(replay) && replay[n.Height()] == hh:
+					default:
+						o.fail("mid-backlog/reorg-gap", "%s: subscriber with backlog above %d (asked during a rollback, below every removed block): event %d connected(%d,%v) is neither the child of its tip (height %d) nor held", when, m.h, i, n.Height(), hh, len(replay)-1)
+						return
+					}
+				} else {
+					switch {
+					case int(n.Height()) == len(replay)-1 && replay[n.Height()] == hh:
+						replay = replay[:len(replay)-1]
+					case int(n.Height()) > len(replay)-1:
+					default:
+						o.fail("mid-backlog/reorg-disconnected-not-tip", "%s: subscriber with backlog above %d (asked during a rollback): event %d disconnected(%d,%v) does not name its tip (height %d)", when, m.h, i, n.Height(), hh, len(replay)-1)
+						return
+					}
+				}
+			}
+			if len(replay)-1 != int(fsn.Tip) {
+				o.fail("mid-backlog/reorg-length", "%s: subscriber with backlog above %d (asked during a rollback): backlog and later events give a chain of height %d, the committed filter tip is %d", when, m.h, len(replay)-1, fsn.Tip)
+				return
+			}
+			for h := range replay {
+				if replay[h] != bsn.Hashes[h] {
+					o.fail("mid-backlog/reorg-content", "%s: subscriber with backlog above %d (asked during a rollback): its chain differs from the committed chain at height %d (it still holds a removed block)", when, m.h, h)
+					return
+				}
+			}
 			continue
 		}
 		if m.err != nil {
@@ -462,8 +534,15 @@ func genCase(t *rapid.T) Case {
 		return Probe{After: rapid.IntRange(0, 19).Draw(t, "after"), Back: rapid.IntRange(0, 12).Draw(t, "back")}
 	}), 0, 4).Draw(t, "probes")
 	c.MidProbes = rapid.SliceOfN(rapid.Custom(func(t *rapid.T) MidProbe {
+		switch kit.Uni(t, "disc", 3) {
+		case 1:
+			return MidProbe{Sched: true, At: rapid.IntRange(1, 4).Draw(t, "sat"), Back: rapid.IntRange(0, 25).Draw(t, "sback")}
+		case 0:
+			// (Back reaches below the fork point of most rollbacks)
+			return MidProbe{Disc: true, At: rapid.IntRange(1, 6).Draw(t, "dat"), Back: rapid.IntRange(0, 25).Draw(t, "dback")}
+		}
 		return MidProbe{At: rapid.IntRange(1, 60).Draw(t, "at"), Back: rapid.IntRange(0, 8).Draw(t, "mback")}
-	}), 0, 4).Draw(t, "midprobes")
+	}), 0, 5).Draw(t, "midprobes")
 	return c
 }
 
@@ -501,8 +580,17 @@ func genCaseBig(t *rapid.T) Case {
 func runCase(t *testing.T, c Case) kit.Verdict {
 	var v kit.Verdict
 	w := kit.BuildWorld(c.Script.World)
-	o := &oracle{v: &v, w: w, pending: map[int64]chainhash.Hash{}, probes: map[int][]int{}, mids: map[int][]int{}}
+	o := &oracle{v: &v, w: w, pending: map[int64]chainhash.Hash{}, probes: map[int][]int{}, mids: map[int][]int{}, midsDisc: map[int][]int{}}
+	schedProbes := map[int][]int{}
 	for _, p := range c.MidProbes {
+		if p.Sched {
+			schedProbes[p.At] = append(schedProbes[p.At], p.Back)
+			continue
+		}
+		if p.Disc {
+			o.midsDisc[p.At] = append(o.midsDisc[p.At], p.Back)
+			continue
+		}
 		o.mids[p.At] = append(o.mids[p.At], p.Back)
 	}
 	for _, p := range c.Probes {
@@ -517,7 +605,35 @@ func runCase(t *testing.T, c Case) kit.Verdict {
 			o.initial = append(o.initial, w.Node(0, h).Hash)
 		}
 	}
-	res := netsim.Exec(t, c.Script, netsim.Config{WrapDB: o.wrap, AfterStart: o.subscribe, PrefillFilterTip: c.FilterPrefill}, o)
+	afterStart := o.subscribe
+	if len(schedProbes) > 0 {
+		afterStart = func(s *netsim.Sim) {
+			o.subscribe(s)
+			var n atomic.Int64
+			netsim.SetSchedHook(func(point string) {
+				if point != "sched:rollback:before-ntfn" {
+					return
+				}
+				backs := schedProbes[int(n.Add(1))]
+				if len(backs) == 0 {
+					return
+				}
+				_, ft, err := s.CS.RegFilterHeaders.ChainTip()
+				if err != nil {
+					return
+				}
+				o.mu.Lock()
+				seen := len(o.events)
+				o.mu.Unlock()
+				for _, b := range backs {
+					if h := int(ft) - 1 - b; h >= 1 && seen >= 1 {
+						o.startMid(uint32(h), seen)
+					}
+				}
+			})
+		}
+	}
+	res := netsim.Exec(t, c.Script, netsim.Config{WrapDB: o.wrap, AfterStart: afterStart, PrefillFilterTip: c.FilterPrefill}, o)
 	if c.Script.World.Base >= 1000 {
 		v.Class("world:checkpointed")
 	}
